@@ -126,9 +126,16 @@ _orig_mse = _r.mean_squared_error
 def _mse_legacy(y_true, y_pred, *, sample_weight=None, multioutput="uniform_average", squared=True):
     if squared:
         return _orig_mse(y_true, y_pred, sample_weight=sample_weight, multioutput=multioutput)
-    # sklearn 0.24 (pinned by /repo/setup.py): sqrt per output column, THEN average (fix #17309)
-    from sklearn.metrics import root_mean_squared_error
-    return root_mean_squared_error(y_true, y_pred, sample_weight=sample_weight, multioutput=multioutput)
+    # sklearn 0.24 (pinned by /repo/setup.py): validate targets/weights first (ValueError), sqrt per
+    # output column, THEN average (fix #17309)
+    out = _new_crt(y_true, y_pred, sample_weight, multioutput)
+    y_true, y_pred, sample_weight, multioutput = out[1], out[2], out[3], out[-1]
+    errs = np.sqrt(_orig_mse(y_true, y_pred, sample_weight=sample_weight, multioutput="raw_values"))
+    if isinstance(multioutput, str):
+        if multioutput == "raw_values":
+            return errs
+        multioutput = None
+    return np.average(errs, weights=multioutput)
 def patch_metrics():
     import sktime.performance_metrics.forecasting._functions as F
     F._check_reg_targets = _check_reg_targets_legacy
